@@ -13,7 +13,7 @@ for f in sorted(glob.glob('/verif/mutants/*.txt')):
     m=re.search(r'^target: (\S+)',t,re.M)
     if m: own.setdefault(m.group(1),[]).append(os.path.basename(f)[4:-4].replace('-',' '))
 COVER=""" - all 13 shape types, hundreds of thousands of random shapes built through every public constructor (also handed over as clone() / clone_from() copies), all float bit patterns incl. NaN/inf/subnormals/sentinel neighbours, shapes lying exactly at the origin, 0..40 shapes per file, files of up to 131072 records (also exactly 2^16 and 2^17, the last shape holding the extremes), shapes of up to 2049 parts and of up to 2^20 points in one part (4.2 million in one test; 2^16+7 points for every type, followed by another record), empty shapes with NaN boxes, single records of 2-3 GiB from user-defined shapes, single shapes of 8, 16 and 67 million points, polygon rings of tiny (2^-60, subnormal) but non-zero area judged by exact integer arithmetic;
- - every reading route: iter_shapes, iter_shapes_as, read, read_as, read_nth_shape(_as), seek, Iterator::nth / skip / step_by / last / count (also with arguments near usize::MAX, also followed by further iterations), size_hint after every item, shapefile::read / read_as / read_shapes / read_shapes_as by path (also through symbolic links, with .shp / .SHP / .Shp names and names that are not valid UTF-8, names without any directory component), sources that cannot seek at all, typed loops that stop at an error followed by further loops, iterators leaked with mem::forget, caller-defined dbase row types that fail to convert, Reader::read versus Reader::read_as from the same advanced state, Reader and ShapeReader, with and without .shx, plain cursors and BufReaders of many capacities, short reads of every chunk size and ErrorKind::Interrupted on every stream, seeks that move and then fail, user-defined ReadableShape types that panic, headers that name another shape type than the records, indexes of exactly 4096 k entries, index entries whose length field disagrees with the record, the text of every error message naming shape types;
+ - every reading route: iter_shapes, iter_shapes_as, read, read_as, read_nth_shape(_as), seek, Iterator::nth / skip / step_by / last / count (also with arguments near usize::MAX, also followed by further iterations), size_hint after every item, shapefile::read / read_as / read_shapes / read_shapes_as by path (also through symbolic links, with .shp / .SHP / .Shp names and names that are not valid UTF-8, names without any directory component), sources that cannot seek at all, typed loops that stop at an error followed by further loops, iterators leaked with mem::forget, caller-defined dbase row types that fail to convert, Reader::read versus Reader::read_as from the same advanced state, Reader and ShapeReader, with and without .shx, plain cursors and BufReaders of many capacities, short reads of every chunk size and ErrorKind::Interrupted on every stream, seeks that move and then fail, I/O errors of each of 40 ErrorKinds on every seek, user-defined ReadableShape types that panic or that decode the whole record before reporting a mismatch, sources and BufReaders whose reads come back short inside filler bytes, headers that name another shape type than the records, indexes of exactly 4096 k entries, index entries whose length field disagrees with the record, the text of every error message naming shape types;
  - every short call sequence (exhaustively, to length 4-6) over the reader API and over the writer API (write_shape, finalize anywhere incl. before the first write, write_shapes (handed a Vec or a lazy iterator), drop, panic unwinding through the writer, reading the files after a finalize while the writer is still alive), by path over pre-existing longer files, several data sets in one directory with dotted names, destinations that are not at position 0 or already hold some older bytes when handed over, buffered destinations that are only lent (&mut) to the writer and inspected right after its drop, write-back destinations that commit on flush() only, a complete Writer built over a ShapeWriter that was already used, the bulk write_shapes_and_records call with accepted and with rejected pairs, histories of 2100 and 70000 records with a rejected write after every accepted one;
  - every single and double I/O fault position (error, Ok(0), Interrupted, disk full, seeks that move and then fail) on either destination with immediate / late / no retry and rejected writes in between, short writes of every chunk size, every crash point of both files incl. inside single writes and inside a 64 MiB record (read sequentially, by random access, both on one reader, in memory and by path), faults on the first and last operations of records larger than 1 MiB, every truncation length of both files (also of files whose records are stored out of index order), field-by-field corruption with boundary values and pairs of fields, declared counts from 10^3 to 2^31-1 with little data behind them (in and out of storage order, also with both files lying consistently), 400000 consecutive null records, files beyond 2 GiB on sparse streams in both directions, with failed finalize calls, the bulk write_shapes call after a finalize that failed, caller-defined shapes of every even size from 4 to 4096 bytes between finalize calls, shapes of 1025 and 2049 parts with a fault at every operation, header rewrites torn inside a single 8-byte double (huge or infinite old values against small new ones), a process whose standard error stream cannot be written to, the complete Reader with row types that fail to convert over cut and failing .shp sources, bulk conversion of vectors holding several shape kinds; everything built with overflow checks and debug assertions on;
  - foreign (not library-written) files: optional M blocks absent, null records, zero parts, empty parts, arbitrary record numbers, records stored out of physical order with filler (incl. filler of 2..6 bytes and filler that looks like a record header), trailing bytes, read in memory and by path, by one or two iterators; every shape read from such files written back through the writer and read again;
